@@ -462,6 +462,25 @@ def check(case) -> list[Fail]:
         s0 = tys.SequenceArg([tys.TypeTypeArg(x), tys.BoundedNatArg(3)])
         if atree(s0.resolve(reg)) != ["S", [["T", expect_tree(tr0, have_types)], ["leaf", repr(tys.BoundedNatArg(3))]]]:
             f.append(Fail("resolve-types", "bare-sequence-arg", ""))
+    if case["std"]:
+        # opaque spellings of the prelude's own types (what a loaded document holds) against a registry with the
+        # prelude: definition-backed by the prelude's definition, and written exactly as they were read
+        from hugr.std import PRELUDE
+
+        for name, b in (("qubit", tys.TypeBound.Any), ("usize", tys.TypeBound.Copyable), ("string", tys.TypeBound.Copyable), ("error", tys.TypeBound.Copyable)):
+            o = tys.Opaque(id=name, bound=b, args=[], extension="prelude")
+            for what, x in (("bare", o), ("in-tuple", tys.Tuple(o, tys.Bool)), ("in-function-type", tys.FunctionType([o], [o])), ("in-opaque-args", tys.Opaque("foo", b, [tys.TypeTypeArg(o)], "unknown.ext"))):
+                try:
+                    y = x.resolve(reg)
+                except Exception as e:  # noqa: BLE001
+                    f.append(exc_fail("Type.resolve-raises", e))
+                    continue
+                if what == "bare" and not (isinstance(y, tys.ExtType) and y.type_def == PRELUDE.types[name]):
+                    f.append(Fail("resolve-types", f"prelude-type:{name}:not-definition-backed", repr(y)[:200]))
+                if json.loads(x._to_serial_root().model_dump_json()) != json.loads(y._to_serial_root().model_dump_json()):
+                    f.append(Fail("invisible", f"prelude-type:{name}:{what}:encoding", f"{y._to_serial_root().model_dump_json()}"[:300]))
+                if y.type_bound() != x.type_bound():
+                    f.append(Fail("invisible", f"prelude-type:{name}:{what}:bound", ""))
     return f[:8]
 
 
